@@ -6,6 +6,27 @@ import os
 from vlib import core, runner
 from .base import Check
 
+# Harmless, behaviour-preserving rewrites of the anchored code on which the whole flow (corpus + generated scenarios + probes, under a
+# parallel ./check as load) stays silent; patches in corpus/C04/negative_controls/*.diff (documentation, not applied by the check; built as
+# scratch objects + scratch harness with HOWTO_build.sh.txt / HOWTO_run.py.txt there).
+NEGATIVE_CONTROLS = [
+    "nc1_reorder_rename_extract: notify_all moved to the front of the helper's / ObjectHandler's / NextCheckChangedHandler's critical section, "
+    "insert-before-erase and swapped erases inside one section, locals renamed, the helper's final section extracted into a lambda",
+    "nc2_message_texts: other wording / severity of the log lines, of the exception check result's output and of the CONTEXT string",
+    "nc3_container: CheckableScheduleInfo with extra bookkeeping fields, index 0 ordered by descending address, the time index a ranked index, "
+    "typedef CheckableSet renamed (the harness robs the members by name only and scans the entries' Object/NextCheck)",
+    "nc4_guard_spellings: ObjectHandler with a negated flag and two ifs, `!(x < max)` / `!(wait <= 0)`, test-and-set of m_CheckRunning as "
+    "if/else, UpdateNextCheck's adjustment nested and with ?: instead of std::min",
+    "nc5_poll_quarter_second: the scheduler's poll timeout 0.5 s -> 0.25 s (the probes' verdicts do not depend on the timeout: 0.15 s median bound, "
+    "F-C04b then shows 0.17 s and is still classified as the known finding)",
+    "nc6_more_points_moved_lines: additional VERIF_POINTs with unknown names inside and outside the sections (sched.loop, "
+    "sched.before-pending-insert, object.begin, nextcheck.begin, helper.locked, other.subsystem.point), braces/comments, and "
+    "IncreasePendingChecks() moved into the scheduler's critical section before the sched.pick point",
+]
+# Contract of the H3 points that the trace validation does rely on (a maintainer moving them breaks the tie, not the property): the points
+# sched.pick/sched.skip/helper.finish/object.done/nextcheck.reindex are reached after the section's last change of the two sets and before the
+# lock is released; helper.dec is reached before DecreasePendingChecks(); guard.* inside the object lock next to the flag access.
+
 
 class C04(Check):
     prop = "C04"
@@ -55,7 +76,7 @@ class C04(Check):
         "due when the operations stopped must have been taken 2.5 s later — a verdict only if no scenario process of the run saw one of its "
         "four canary threads oversleep by > 0.2 s (threads of this machine were observed to stall for 0.4-0.9 s under load); (c) a scripted probe "
         "(script=wakeup; F-C04a, fixed by 31ee201): with max_concurrent_checks=1, A is paused while its command runs and B is made due; when A's "
-        "helper finishes, the freed slot must wake the scheduler for B at once: the MEDIAN over 12 repetitions of the delay must be < 0.3 s "
+        "helper finishes, the freed slot must wake the scheduler for B at once: the MEDIAN over 12 repetitions of the delay must be < 0.15 s "
         "(before the fix: 0.42 s, after: ~0.1 ms), which is robust against single stalls; (d) the same probe with A's command being a plugin-like "
         "process (script=wakeup_async): the slot is freed by the finished process, which does not wake the scheduler when A is not idle - known finding F-C04b; offered load of the random scenarios is kept below "
         "~40 % of max_concurrent_checks",
